@@ -58,7 +58,7 @@ _BIN = {ast.Add: operator.add, ast.Sub: operator.sub, ast.Mult: operator.mul, as
 
 
 def ceval(expr, env, rational=False):
-    e = expr.strip()
+    e = " ".join(expr.split())
     e = re.sub(r"\b(?:real|T|int|unsigned|double)\s*\(", "(", e)      # casts
     e = re.sub(r"(\d+)[uUlL]+\b", r"\1", e)
     e = re.sub(r"\b[A-Za-z_]\w*::", "", e)                               # qualifiers
@@ -267,7 +267,63 @@ def gen_gridcodes():
     digest.append(f"Grid: geohash maxlen={gh['maxlen_']} gars m={ga['m_']} georef m={m.group(1)} osgb tile={og['tile_']} letters={cstring('src/OSGB.cpp', 'OSGB::letters_')}")
 
 
-GENERATORS = [gen_math, gen_gridcodes]
+def mgrs_env():
+    return class_ints("include/GeographicLib/MGRS.hpp",
+                      ["base_", "tilelevel_", "utmrowperiod_", "utmevenrowshift_", "maxprec_", "mult_", "tile_", "minutmcol_", "maxutmcol_",
+                       "minutmSrow_", "maxutmSrow_", "minutmNrow_", "maxutmNrow_", "minupsSind_", "maxupsSind_", "minupsNind_", "maxupsNind_",
+                       "upseasting_", "utmeasting_", "utmNshift_"], math_env())
+
+
+def int_table(rel, name, env):
+    txt = preprocess(rel)
+    body = brace_array(txt, r"\b" + re.escape(name) + r"\s*\[\s*\d*\s*\]\s*=\s*\{")
+    return [ceval(e, env) for e in split_top(body)]
+
+
+def gen_utm():
+    me = mgrs_env()
+    body = "namespace GeoVerif.Gen.UTM\n"
+    for k, v in me.items():
+        body += f"def mgrs_{k.rstrip('_')} : Int := {lean_int(v)}\n"
+    for t in ["falseeasting_", "falsenorthing_", "mineasting_", "maxeasting_", "minnorthing_", "maxnorthing_"]:
+        vals = int_table("src/UTMUPS.cpp", "UTMUPS::" + t, me)
+        if len(vals) != 4:
+            raise Missing(f"UTMUPS::{t} has {len(vals)} entries")
+        body += f"def utm_{t.rstrip('_')} : List Int := [{', '.join(lean_int(v) for v in vals)}]\n"
+    # the MGRS copies of the range tables (MGRS.cpp)
+    for t in ["mineasting_", "maxeasting_", "minnorthing_", "maxnorthing_"]:
+        vals = int_table("src/MGRS.cpp", "MGRS::" + t, me)
+        body += f"def mgrs_tbl_{t.rstrip('_')} : List Int := [{', '.join(lean_int(v) for v in vals)}]\n"
+    hdr = preprocess("include/GeographicLib/UTMUPS.hpp")
+    zs = dict(enum_body(hdr, "zonespec"))
+    for k in ["MINPSEUDOZONE", "INVALID", "MATCH", "UTM", "STANDARD", "MAXPSEUDOZONE", "MINZONE", "UPS", "MINUTMZONE", "MAXUTMZONE", "MAXZONE"]:
+        if k not in zs:
+            raise Missing("zonespec::" + k)
+        body += f"def z{k} : Int := {lean_int(zs[k])}\n"
+    ep = class_ints("include/GeographicLib/UTMUPS.hpp", ["epsg01N", "epsg60N", "epsgN", "epsg01S", "epsg60S", "epsgS"])
+    for k, v in ep.items():
+        body += f"def {k} : Int := {v}\n"
+    # MGRS letter tables
+    mc = preprocess("src/MGRS.cpp")
+    def strs(name, n):
+        if n == 1:
+            return [cstring("src/MGRS.cpp", "MGRS::" + name)]
+        b = brace_array(mc, r"MGRS::" + name + r"\s*\[\s*\d*\s*\]\s*=\s*\{")
+        return ["".join(re.findall(r'"([^"]*)"', x)) for x in split_top(b)]
+    for name, n in [("hemispheres_", 1), ("utmcols_", 3), ("utmrow_", 1), ("upscols_", 4), ("upsrows_", 2), ("latband_", 1), ("upsband_", 1), ("digits_", 1), ("alpha_", 1)]:
+        v = strs(name, n)
+        if n == 1:
+            body += f"def mgrs_{name.rstrip('_')}S : String := {lean_str(v[0])}\n"
+        else:
+            if len(v) != n:
+                raise Missing(f"MGRS::{name} has {len(v)} entries, expected {n}")
+            body += f"def mgrs_{name.rstrip('_')}S : List String := [{', '.join(lean_str(x) for x in v)}]\n"
+    body += "end GeoVerif.Gen.UTM\n"
+    write("UTM", body)
+    digest.append("UTM: tile=%d utmNshift=%d zones[%d,%d] epsg01N=%d utmrow=%s" % (me["tile_"], me["utmNshift_"], zs["MINUTMZONE"], zs["MAXUTMZONE"], ep["epsg01N"], strs("utmrow_", 1)[0]))
+
+
+GENERATORS = [gen_math, gen_gridcodes, gen_utm]
 
 
 def main():
